@@ -6,7 +6,7 @@ from .. import query as Q
 from .common import S
 
 EXPLANATION = (
-    "Proof over the MIR model: from each of the 16 receiving entry points the resolved call graph is followed through "
+    "Proof over the MIR model: from each of the 17 receiving entry points the resolved call graph is followed through "
     "every workspace body (closures included) and every potential failure site is inventoried: MIR Assert terminators "
     "(overflow, bounds, division), diverging calls (panic_fmt, begin_panic, unwrap_failed ...), calls of partial "
     "external functions with their precondition (slice indexing by any range kind, copy_from_slice, unwrap / expect "
@@ -44,6 +44,8 @@ ENTRIES = [
     ("sta_rs::share_recover", {"shares"}, "A"),
     ("ppoprf::ppoprf::ServerPublicKey::load_from_bincode", {"data"}, "A"),
     ("ppoprf::ppoprf::ProofDLEQ::load_from_bincode", {"data"}, "A"),
+    # the serde adapter that decodes the evaluated point from the server's JSON answer
+    ("ppoprf::ppoprf::point_deserialize", {"d"}, "A"),
     ("ppoprf::ppoprf::Server::eval", {"p"}, "A"),
     ("ppoprf::ppoprf::Client::verify", {"public_key", "input", "eval"}, "A"),
     # the evaluated point returned by the randomness server (the example client unblinds it without verifying)
@@ -189,7 +191,7 @@ def clippy_crossref(ctx, rule):
 
 def run(ctx):
     total, dis = run_entries(ctx, "C09.P", ENTRIES, 64)
-    ctx.floor("C09.P.ENTRY", 16)
+    ctx.floor("C09.P.ENTRY", 17)
     ctx.floor("C09.P", 60)
     if ctx.tier == "thorough":
         run_entries(ctx, "C09.P32", ENTRIES, 32, tag="@usize32")
